@@ -70,6 +70,9 @@ type Builder struct {
 
 	// comparison function
 	stepPlanPreferFuncs []func(stepPlan) int // for buildStepsWithoutJointConsensus
+
+	// whether a store is allowed to be the leader, judged once per builder.
+	storeAllowLeader map[allowLeaderKey]bool
 }
 
 // BuilderOption is used to create operator builder.
@@ -712,7 +715,28 @@ func (b *Builder) allowLeader(peer *metapb.Peer, ignoreClusterLimit bool) bool {
 	if peer.GetStoreId() == b.currentLeaderStoreID {
 		return true
 	}
-	store := b.cluster.GetStore(peer.GetStoreId())
+	// A store may change its state while the steps are being planned. Judge every store only once per
+	// builder, otherwise the plans are compared against different cluster states (e.g. no valid leader
+	// for a replace plan, but a valid one for the remove plan that is tried next).
+	key := allowLeaderKey{storeID: peer.GetStoreId(), ignoreClusterLimit: ignoreClusterLimit}
+	if allow, ok := b.storeAllowLeader[key]; ok {
+		return allow
+	}
+	allow := b.storeAllowLeaderNow(peer.GetStoreId(), ignoreClusterLimit)
+	if b.storeAllowLeader == nil {
+		b.storeAllowLeader = make(map[allowLeaderKey]bool)
+	}
+	b.storeAllowLeader[key] = allow
+	return allow
+}
+
+type allowLeaderKey struct {
+	storeID            uint64
+	ignoreClusterLimit bool
+}
+
+func (b *Builder) storeAllowLeaderNow(storeID uint64, ignoreClusterLimit bool) bool {
+	store := b.cluster.GetStore(storeID)
 	if store == nil {
 		return false
 	}
